@@ -44,6 +44,24 @@ fn party(name: &'static str, kp: &Keypair, initiator: bool, prologue: &[u8]) -> 
     party_cfg(name, cfg, initiator)
 }
 
+/// WebTransport certhash set number k (1 = {h1}, 2 = {h1, h2}, 3 = {h3}); an initiator expects them, a responder announces them
+fn certhashes(k: u64) -> std::collections::HashSet<libp2p_core::multihash::Multihash<64>> {
+    let h = |b: u8| libp2p_core::multihash::Multihash::<64>::wrap(0x12, &[b; 32]).expect("multihash");
+    match k {
+        1 => [h(1)].into_iter().collect(),
+        2 => [h(1), h(2)].into_iter().collect(),
+        _ => [h(3)].into_iter().collect(),
+    }
+}
+
+fn with_ch(cfg: Config, k: u64) -> Config {
+    if k == 0 {
+        cfg
+    } else {
+        cfg.with_webtransport_certhashes(certhashes(k))
+    }
+}
+
 fn party_cfg(name: &'static str, cfg: Config, initiator: bool) -> Party {
     let (e0, e1, ctl) = pipe(true);
     for d in 0..2 {
@@ -170,8 +188,13 @@ pub fn run(out: &mut Out, sched: &Value) {
     let pa = sched.get("pa").and_then(|x| x.as_str()).unwrap_or(if attack == "prologue" { "one" } else { "" }).to_string();
     let pb = sched.get("pb").and_then(|x| x.as_str()).unwrap_or(if attack == "prologue" { "two" } else { "" }).to_string();
     assert_eq!(attack == "prologue", pa != pb, "attack=prologue iff the prologues differ");
-    let mut a = party("A", &ka, true, pa.as_bytes());
-    let mut b = party("B", &kb, false, pb.as_bytes());
+    // "chv" / "cho": certhash set of the victim (or of A) and of its counterpart (M in a splice, else B); 0 = none
+    let chv = sched.get("chv").and_then(|x| x.as_u64()).unwrap_or(0);
+    let cho = sched.get("cho").and_then(|x| x.as_u64()).unwrap_or(0);
+    let splice_victim_is_a = attack == "splice" && vcommon::s(sched, "role") == "resp";
+    let (cha, chb) = if attack == "splice" { if splice_victim_is_a { (chv, 0) } else { (0, chv) } } else { (chv, cho) };
+    let mut a = party_cfg("A", with_ch(Config::new(&ka).expect("noise config").with_prologue(pa.as_bytes().to_vec()), cha), true);
+    let mut b = party_cfg("B", with_ch(Config::new(&kb).expect("noise config").with_prologue(pb.as_bytes().to_vec()), chb), false);
     if attack == "splice" {
         // M runs the real handshake with its own static key but presents a spliced identity payload
         let variant = vcommon::s(sched, "variant");
@@ -188,7 +211,7 @@ pub fn run(out: &mut Out, sched: &Value) {
             "mid_nosig" => (mpub, vec![]),
             _ => (mpub, msig), // "honest"
         };
-        let mcfg = libp2p_noise::verif::with_identity_payload(mcfg, p, sg);
+        let mcfg = with_ch(libp2p_noise::verif::with_identity_payload(mcfg, p, sg), cho);
         let mut m = party_cfg("Mx", mcfg, !victim_is_a);
         let v = if victim_is_a { &mut a } else { &mut b };
         for _ in 0..20 {
@@ -354,6 +377,14 @@ fn generate(out: &mut Out, deep: bool, seed: u64) {
         run(out, &json!({"key": kt, "attack": "prologue", "pa": "one", "pb": ""}));
         run(out, &json!({"key": kt, "attack": "prologue", "pa": "one", "pb": "one "}));
         run(out, &json!({"key": kt, "attack": "none", "pa": "same", "pb": "same"}));
+        // WebTransport certhashes: expected by A, announced by B. Satisfiable combinations must complete (attack
+        // none); unsatisfiable ones are their own attack kind (nothing demanded beyond "done reports the counterpart")
+        for (chv, cho) in [(1, 2), (1, 1), (0, 2), (2, 2)] {
+            run(out, &json!({"key": kt, "attack": "none", "chv": chv, "cho": cho}));
+        }
+        for (chv, cho) in [(1, 3), (1, 0), (2, 1)] {
+            run(out, &json!({"key": kt, "attack": "certhash", "chv": chv, "cho": cho}));
+        }
         for m in 1..=3 {
             for at in ["drop", "dup", "replay"] {
                 run(out, &json!({"key": kt, "attack": at, "msg": m}));
@@ -368,6 +399,13 @@ fn generate(out: &mut Out, deep: bool, seed: u64) {
                 }
                 for variant in ["xid_xsig", "xid_msig", "xid_nosig", "mid_xsig", "mid_nosig", "honest"] {
                     run(out, &json!({"key": kt, "attack": "splice", "role": role, "x": x, "variant": variant}));
+                    // the victim pins / announces WebTransport certhashes; M announces a superset, the same set,
+                    // a different set or nothing
+                    for (chv, cho) in [(1, 2), (1, 1), (1, 3), (1, 0), (0, 2)] {
+                        if kt == "ed25519" || (chv, cho) == (1, 2) {
+                            run(out, &json!({"key": kt, "attack": "splice", "role": role, "x": x, "variant": variant, "chv": chv, "cho": cho}));
+                        }
+                    }
                 }
             }
         }
